@@ -52,7 +52,8 @@ QUICK_TIMEOUT = {1: 300.0, 2: 300.0, 3: 420.0, 4: 420.0}
 THOROUGH_COUNTS = {1: 70, 2: 50, 3: 25, 4: 15}
 THOROUGH_N = {1: (1, 7), 2: (1, 6), 3: (2, 4), 4: (2, 3)}
 THOROUGH_DEPTH = {1: (3, 25), 2: (3, 16), 3: (3, 8), 4: (3, 6)}
-THOROUGH_TIMEOUT = {1: 600.0, 2: 900.0, 3: 1200.0, 4: 1500.0}
+THOROUGH_TIMEOUT = {1: 480.0, 2: 600.0, 3: 900.0, 4: 900.0}
+THOROUGH_MIN_CHECKED = 25   # cases that must have been judged (else exit 2)
 THOROUGH_BUDGET_S = 30 * 60.0
 EST = {1: 8, 2: 20, 3: 60, 4: 200}
 
@@ -101,9 +102,9 @@ def thorough_templates(seed: int) -> list[tuple[Any, ...]]:
             o: dict[str, Any] = {}
             o['workers'] = int(rng.choice([1, 2, 4]))
             o['eps'] = float(rng.choice([1e-8, 1e-8, 1e-6, 1e-4]))
-            o['mss'] = int(rng.choice([2, 3, 3, 3, 4])) if lvl <= 2 else 3
-            if lvl >= 3 and n == 4 and rng.random() < 0.3:
-                o['mss'] = 4
+            o['mss'] = int(rng.choice([2, 3, 3, 3, 3, 3])) if lvl <= 2 else 3
+            if lvl == 1 and n <= 4 and depth <= 10 and rng.random() < 0.15:
+                o['mss'] = 4   # 4-qudit blocks are very slow: few and small
             o['p3'] = 0.0 if o['mss'] == 2 else 0.12
             o['force3'] = bool(o['mss'] >= 3 and rng.random() < 0.3)
             if lvl >= 3:
@@ -197,8 +198,8 @@ def main(tier: str, seed: int, replay: str | None = None) -> int:
     run.extra['concurrency'] = cc.default_concurrency()
     cc.drive(run, cases, timeouts, cc.judge_c01, on_ok(run))
     for c, m in (
-        ('mapped_cost_checked', 6 if tier == 'quick' else 40),
-        ('mapping_checked', 6 if tier == 'quick' else 40),
+        ('mapped_cost_checked', 6 if tier == 'quick' else THOROUGH_MIN_CHECKED),
+        ('mapping_checked', 6 if tier == 'quick' else THOROUGH_MIN_CHECKED),
         ('measurement_checked', 1), ('placement_nonidentity', 1),
         ('final_ne_initial', 1), ('three_qudit_gate', 1), ('zx_gateset', 1),
         ('machine_wider', 1), ('compile_L1', 1), ('compile_L2', 1),
